@@ -403,6 +403,36 @@ def rule_closure(ctx, f):
                   "the source document" % badf, cp["span"], detail="every attribute via deep_clone")
 
 
+def rule_stream_writer(ctx, f):
+    ctx.rule("C20-G4", "a copied stream is written with the decode parameters it was read with: Stream::to_pdf_stream decides by the KIND of a filter whether it has "
+             "/DecodeParms, never by the value of a parameter (leaving them out when they 'only spell out defaults' drops the others, e.g. /EarlyChange 0)")
+    b = None
+    for x in f.bodies.values():
+        if x["id"].endswith("::to_pdf_stream") and "Stream" in x["id"] and x["kind"] != "Closure":
+            b = x
+    if b is None:
+        ctx.lost("C20-G4", "Stream::to_pdf_stream")
+        return
+    pfields = set()
+    for adt in ("enc::LZWFlateParams", "enc::DCTDecodeParams", "enc::CCITTFaxDecodeParams", "enc::JBIG2DecodeParams"):
+        if adt in f.adts:
+            pfields |= {fl_["name"] for fl_ in f.adts[adt]["variants"][0]["fields"]}
+    bad = set()
+    for bb in f.with_closures(b["id"]):
+        fl = Flow(bb)
+        for i, j, st in F.stmts(bb):
+            if st[0] == "assign" and st[2][0] == "binop" and st[2][1] in ("Eq", "Ne", "Lt", "Le", "Gt", "Ge"):
+                for o in (st[2][2], st[2][3]):
+                    fs = set()
+                    if F.op_place(o):
+                        Flow._note_fields(F.op_place(o), fs)
+                    if F.op_local(o) is not None:
+                        fl.origins(F.op_local(o), fields=fs, passthrough=())
+                    bad |= fs & pfields
+    ctx.check(not bad, "C20-G4", "Stream::to_pdf_stream#params-by-kind", "whether /DecodeParms is written depends on the value of %s: a stream whose other parameters differ from the "
+              "defaults loses them when it is written (imported, saved)" % sorted(bad), b["span"], detail="every LZW / Flate / DCT / CCITT / JBIG2 filter writes its parameters")
+
+
 def rule_streams(ctx, f):
     ctx.rule("C20-G2", "when a stream is cloned its bytes are fetched through the Cloner's source resolver (stream_data) and stored as generated / pending "
              "data; no file range of the source document survives")
@@ -490,6 +520,7 @@ def run(ctx):
     rule_kinds(ctx, f)
     rule_closure(ctx, f)
     rule_streams(ctx, f)
+    rule_stream_writer(ctx, f)
     rule_panic(ctx, f, imp)
     rule_compare(ctx, f)
     return ctx.finish(
